@@ -25,8 +25,15 @@ class Dom:
         return st.sampled_from(ks)
 
     def _text(self):
-        alpha = st.characters(exclude_categories=["Cs"])
-        t = st.one_of(st.sampled_from(SPECIAL_TEXT), st.text(alphabet=alpha, max_size=6))
+        # lone surrogates are legal Python strings and JSON-escapable (\\udXXX); only BSON (UTF-8)
+        # cannot carry them
+        if self.mongo:
+            alpha = st.characters(exclude_categories=["Cs"])
+            special = SPECIAL_TEXT
+        else:
+            alpha = st.characters()
+            special = SPECIAL_TEXT + ["\ud800", "a\udfffb", "\udc00\ud800"]
+        t = st.one_of(st.sampled_from(special), st.text(alphabet=alpha, max_size=6))
         return t
 
     def keys(self):
